@@ -137,6 +137,10 @@ inductive Tm
   | route (k : Route) (args : List Tm)
   | decl (x : String) (e : Tm)                 -- `x := e`
   | assign (x : String) (e : Tm)               -- `x = e`
+  | opassign (x : String) (sub : Bool) (e : Tm) -- `x += e` / `x -= e`  (compileAssign, compound arm)
+  | postfix (x : String) (dec : Bool)          -- `x++` / `x--`        (compilePostfix)
+  | massign (xs : List String) (e : Tm)        -- `a, b = e`           (compileMultiVar, plain)
+  | mdecl (xs : List String) (e : Tm)          -- `a, b := e`          (compileMultiVar, walrus)
   | ret (e : Tm)
   deriving Repr, Inhabited
 
@@ -151,6 +155,7 @@ inductive RTm
   | mkchan
   | load (r : Ref)
   | add (a b : RTm)
+  | sub (a b : RTm)
   | mkfn (lit : Nat)                           -- MakeCell* ; LoadClosure  /  LoadConst
   | call (f : RTm) (args : List RTm)
   | list (es : List RTm)
@@ -159,6 +164,8 @@ inductive RTm
   | key (e : RTm) (i : Nat)
   | route (k : Route) (args : List RTm)
   | store (r : Ref) (e : RTm)
+  /-- `e ; Unpack n ; Store* r_{n-1} … Store* r_0`: the refs in the order of the names -/
+  | unpack (rs : List Ref) (e : RTm)
   | ret (e : RTm)
   deriving Repr, Inhabited
 
@@ -255,6 +262,26 @@ def declareName (rs : RS) (x : String) : Ref × RS :=
     | some i => (.loc i, rs)
     | none => (.loc s.count, { rs with scopes := { s with bodyTab := (x, s.count) :: s.bodyTab, count := s.count + 1 } :: outer })
 
+/-- `Resolve` for a list of names, in list order (each reference of a free variable claims
+    the next free index of the innermost function) -/
+def resolveNames : List String → RS → Except String (List Ref × RS)
+  | [], rs => .ok ([], rs)
+  | x :: xs, rs =>
+    match resolveName rs x with
+    | .error e => .error e
+    | .ok (r, rs) =>
+      match resolveNames xs rs with
+      | .error e => .error e
+      | .ok (rl, rs) => .ok (r :: rl, rs)
+
+/-- `InsertVariable` for a list of names, in list order (each new name claims the next slot) -/
+def declareNames : List String → RS → List Ref × RS
+  | [], rs => ([], rs)
+  | x :: xs, rs =>
+    let (r, rs) := declareName rs x
+    let (rl, rs) := declareNames xs rs
+    (r :: rl, rs)
+
 def insertParams : List String → Nat → List (String × Nat)
   | [], _ => []
   | p :: ps, i => insertParams ps (i + 1) ++ [(p, i)]   -- later duplicates win in `find?`
@@ -316,12 +343,38 @@ def resolveTm : Nat → Tm → RS → Except String (RTm × RS)
     let (r, rs) ← resolveName rs x
     let (e, rs) ← resolveTm n e rs
     pure (.store r e, rs)
+  -- compileAssign, compound operator: ONE Resolve, whose free index serves both the
+  -- LoadFree before the value and the StoreFree after it
+  | n + 1, .opassign x sub e, rs => do
+    let (r, rs) ← resolveName rs x
+    let (e, rs) ← resolveTm n e rs
+    pure (.store r (if sub then .sub (.load r) e else .add (.load r) e), rs)
+  -- compilePostfix: one Resolve; Load, LoadConst ±1, Add, Store
+  | _ + 1, .postfix x dec, rs => do
+    let (r, rs) ← resolveName rs x
+    pure (.store r (.add (.load r) (.int (if dec then -1 else 1))), rs)
+  -- compileMultiVar: the value first, then the names from the LAST to the first
+  | n + 1, .massign xs e, rs => do
+    let (e, rs) ← resolveTm n e rs
+    let (refs, rs) ← resolveNames xs.reverse rs
+    pure (.unpack refs.reverse e, rs)
+  | n + 1, .mdecl xs e, rs => do
+    let (e, rs) ← resolveTm n e rs
+    let (refs, rs) := declareNames xs.reverse rs
+    pure (.unpack refs.reverse e, rs)
   | n + 1, .ret e, rs => do
     let (e, rs) ← resolveTm n e rs
     pure (.ret e, rs)
 def resolveList : Nat → List Tm → RS → Except String (List RTm × RS)
   | 0, _, _ => .error "fuel"
   | _ + 1, [], rs => .ok ([], rs)
+  -- the parser reads `x++` as the expression statement `x` (LoadX; PopTop: one more reference
+  -- of `x`) followed by the postfix statement on the previous token
+  | n + 1, .postfix x dec :: ts, rs => do
+    let (r0, rs) ← resolveName rs x
+    let (t, rs) ← resolveTm n (.postfix x dec) rs
+    let (ts, rs) ← resolveList n ts rs
+    pure (.load r0 :: t :: ts, rs)
   | n + 1, t :: ts, rs => do
     let (t, rs) ← resolveTm n t rs
     let (ts, rs) ← resolveList n ts rs
@@ -459,6 +512,19 @@ def addVals : Val → Val → M Val
   | _, .opaque => throwE .undef true
   | _, _ => throwE .type
 
+def subVals : Val → Val → M Val
+  | .int a, .int b => pure (.int (wrap64 (a - b)))
+  | .opaque, _ => throwE .undef true
+  | _, .opaque => throwE .undef true
+  | _, _ => throwE .type
+
+/-- the `Store*` instructions after an `Unpack`, in the order given -/
+def storeRefs : List (Ref × Val) → M Unit
+  | [] => pure ()
+  | (r, v) :: rest => do
+    storeRef r v
+    storeRefs rest
+
 /-- the locals of a fresh frame: arguments, the function itself if it is named, Go nil -/
 def initLocals (l : Lit) (self : Val) (args : List Val) : List Val :=
   let base := args ++ (if l.named then [self] else [])
@@ -485,6 +551,10 @@ def eval (m : Mode) (lits : List Lit) : Nat → RTm → M Val
     let x ← eval m lits n a
     let y ← eval m lits n b
     addVals x y
+  | n + 1, .sub a b => do
+    let x ← eval m lits n a
+    let y ← eval m lits n b
+    subVals x y
   | _ + 1, .mkfn i => fun s =>
     match lits[i]? with
     | none => (.error ⟨.bad, true⟩, s)
@@ -522,6 +592,20 @@ def eval (m : Mode) (lits : List Lit) : Nat → RTm → M Val
     let v ← eval m lits n e
     storeRef r v
     pure .nil
+  -- `Unpack n`: the value must be a container of exactly n items ("type error: object is not
+  -- a container" / "unpack count mismatch", a plain error); the items are pushed first to last,
+  -- so the stores run from the last name to the first
+  | n + 1, .unpack rs e => do
+    let v ← eval m lits n e
+    match v with
+    | .list vs =>
+      if vs.length != rs.length then throwE .user
+      else do
+        storeRefs (rs.zip vs).reverse
+        pure .nil
+    | .map _ => throwE .undef true                               -- unpacks the keys: not modelled
+    | .opaque => throwE .undef true
+    | _ => throwE .type
   | n + 1, .ret e => eval m lits n e
   | n + 1, .route k args => do
     match k, args with
